@@ -4,10 +4,11 @@ F(p, args) == [p |-> p, a |-> args]
 \* atom universe: plain atoms, the hash-equal pair p([1]) / p(65792), zero arity, same symbol with
 \* another arity, structured values, a name
 U == { F("p", <<Num(1)>>), F("p", <<Num(2)>>), F("p", <<List(<<Num(1)>>)>>), F("p", <<Num(65792)>>),
-       F("z", <<>>), F("p", <<Num(1), Num(2)>>), F("q", <<Pair(Num(1), Str("a"))>>), F("p", <<Num(2), Num(2)>>) }
+       F("z", <<>>), F("p", <<Num(1), Num(2)>>), F("q", <<Pair(Num(1), Str("a"))>>), F("p", <<Num(2), Num(2)>>),
+       F("p", <<<<"f", "NaN">>>>) }   \* a float that is not equal to itself as a number, but is one element of a set of atoms
 V(x) == <<"v", x>>
 \* patterns: whole predicate, constant in the first / a non-first column, repeated variable, no match
-Pats == { F("p", <<V("X")>>), F("p", <<Num(1)>>), F("p", <<List(<<Num(1)>>)>>), F("p", <<V("X"), V("Y")>>),
+Pats == { F("p", <<V("X")>>), F("p", <<Num(1)>>), F("p", <<List(<<Num(1)>>)>>), F("p", <<<<"f", "NaN">>>>), F("p", <<V("X"), V("Y")>>),
           F("p", <<V("X"), Num(2)>>), F("p", <<Num(2), V("Y")>>), F("z", <<>>), F("q", <<V("_")>>), F("r", <<V("X")>>) }
 Srcs == { {F("p", <<Num(1)>>), F("p", <<Num(1), Num(2)>>)}, {F("p", <<Num(65792)>>), F("z", <<>>)}, {} }
 =============================================================================
